@@ -6,7 +6,11 @@ PROP = {
              "random keys x option sets (workchain -1,0,1,127,-128,128,255,256,-129,2^31,..., sub-wallet ids incl. the default 698983191 and "
              "2^32-1, network ids -239,-3,0,+-1,int32 bounds): wallet.New(...).GetAddress, GenerateWalletAddress and the hash of "
              "GenerateStateInit's cell vs the extracted model (code BOCs translated from models.go, parsed by the model parser, Gallina "
-             "SHA-256); public keys of 0/1/31/33/64 bytes; pairs differing in one option; mnemonic -> key -> v4r2 address; "
+             "SHA-256); public keys of 0/1/31/33/64 bytes; pairs differing in one option; mnemonics through "
+             "DefaultWalletFromSeed / SeedToPrivateKey against an INDEPENDENT implementation of the TON derivation in the harness "
+             "(HMAC-SHA512 entropy, own PBKDF2 loop; version byte and Ed25519 seed handed to the model as columns): 24-word valid "
+             "phrases, searched 12- and 13-word valid phrases, 11 words with version byte 0 (rejected), 11 words + trailing space (12 "
+             "parts: accepted), random 24 words (bad version byte), empty string, double space; "
              "(2) NextMessageParams (hook) for every version x account none / uninit / frozen / active; active data covers everything the "
              "CONTRACT can store, built independently of the library (bit layout per version + a dictionary encoder written from the "
              "Hashmap TL-B schema with a random label form per edge): seqno 0,1,2,2^31-1,2^31,2^32-2,2^32-1 (33-bit values for v5 beta), "
@@ -33,14 +37,15 @@ PROP = {
                     "version decodes every well-formed data cell (any seqno, ids, key, flag, any dictionary with distinct keys of the key "
                     "width and values of the value width) to exactly its fields (C15_decode_wellformed_data, through C05's dictionary "
                     "theorems), so active => stored seqno and no init whatever plugins/extensions are installed, otherwise own init and seqno 0 (highload: init iff none/uninit); for EVERY poll history the send returns Ok iff "
-                    "some poll before the deadline reports a seqno above the sent one, else the timeout error; the message is addressed to "
-                    "the wallet itself. coq/Properties/C15_gen.v re-checks on today's source that every accepted version's code BOC parses "
+                    "some poll before the deadline reports a seqno above the sent one, else the timeout error; with the clock in ticks (a sleep of wait/10 between polls) at most ten polls "
+                    "decide (C15_confirm_ten_polls; the harness checks <= 10 real polls); the message is addressed to the wallet itself; a "
+                    "mnemonic is accepted iff it has >= 12 space-separated parts and version byte 0 (C15_seed_accepted_spec). coq/Properties/C15_gen.v re-checks on today's source that every accepted version's code BOC parses "
                     "to one root, that the twelve code hashes are pairwise distinct (hence codes_distinct), the constants and the Version "
                     "numbering."),
     'assumptions': ["address_injective assumes the cell hash injective on state-init cells (idealisation of SHA-256, explicit hypothesis)",
                     "the clock of the confirmation loop is part of the history (logical time); the harness uses real 200 ms deadlines with scripts whose verdict cannot depend on scheduling (advance at poll <= 2 or never)",
                     "workchain is a Go int: the address keeps int32(workchain), the data of v5 keeps its low byte; the theorems speak about these resolved values",
-                    "mnemonic -> key (PBKDF2/HMAC) is computed by the implementation; only 'the derived key is the key of the address' is checked",
+                    "PBKDF2/HMAC-SHA512 of the mnemonic derivation are not computed in Coq: the version byte and the Ed25519 seed come from an independent Go implementation of the specification (checked equal to wallet/seed.go on every case); the model decides acceptance (>= 12 parts, version byte 0) and builds the address",
                     "V1R1..V2R2 have addresses but NextMessageParams/createSignedMsgBodyCell panic(\"implement me\") (modelled as Panic, observation)",
                     "GenerateStateInit returns the zero StateInit and a nil error for an unsupported version (modelled as is, observation)",
                     "active-account data with a non-empty plugin/extension dictionary containing exotic cells is outside the model"],
